@@ -85,6 +85,30 @@ pub fn zz_safe_after_helper(args: &Vec<u8>) -> Result<u8, String> {
     zz_expect_one(args)?;
     Ok(args[0])
 }
+pub fn zz_unsafe_signed_cast(v: &Vec<u8>, n: i64) -> u8 {
+    if n < v.len() as i64 { return v[n as usize]; }
+    0
+}
+pub fn zz_unsafe_narrow_cast(v: &Vec<u8>, n: usize) -> u8 {
+    if n < v.len() { return v[(n as u8) as usize + 250]; }
+    0
+}
+pub fn zz_unsafe_or_guard(v: &Vec<u8>, i: usize, j: usize) -> u8 {
+    if i < v.len() || j < v.len() { return v[i]; }
+    0
+}
+pub fn zz_unsafe_wrong_vec(v: &Vec<u8>, w: &Vec<u8>, i: usize) -> u8 {
+    if i < v.len() { return w[i]; }
+    0
+}
+pub fn zz_unsafe_off_by_one(v: &Vec<u8>, i: usize) -> u8 {
+    if i <= v.len() { return v[i]; }
+    0
+}
+pub fn zz_unsafe_slice_end(v: &Vec<u8>, a: usize, b: usize) -> u8 {
+    if a <= v.len() { return v[a..b].len() as u8; }
+    0
+}
 pub fn zz_safe_guard(v: &Vec<u8>, i: usize) -> u8 {
     if i < v.len() { return v[i]; }
     0
